@@ -9,6 +9,27 @@ TB_COMMON = [
 ]
 
 PROPS = {
+    "C09": dict(
+        module="Prom.Props.C09",
+        areas=[dict(area="desc", quick=3000, thorough=100000,
+                    classes=["accept-.*", "reject-wellformed", "fq-name", "harness-panic"],
+                    mask=[(r" id=[0-9a-f]+ dim=[0-9a-f]+", "")])],
+        rule="case = 2-4 related constructor requests (Desc::new and all 10 metric constructors; names from an adversarial pool "
+             "of ASCII/non-ASCII letters, digits, punctuation, empty; mutations: const->var, shuffles, boundary shifts); "
+             "non-trivial = at least two accepted descriptors in the case; distinct by request text",
+        trusted=["strings are UTF-8 byte lists; utf8_char_ascii / utf8_noFF (proved about Lean core's String.utf8EncodeChar) tie bytes to characters",
+                 "HashMap iteration order is modelled as an arbitrary list order; each request is executed under two insertion orders"],
+    ),
+    "C15": dict(
+        module="Prom.Props.C15",
+        areas=[dict(area="desc", quick=3000, thorough=100000,
+                    classes=["id-not-structural", "dim-not-structural", "order-dependent", "harness-panic"])],
+        rule="case = 2-4 related descriptors (boundary-shifted splits, shuffled const/var labels, empty strings, shared prefixes); every pair of accepted "
+             "descriptors is compared (id equal <=> same fq name + const values in name order; dim equal <=> same help + name sets); "
+             "non-trivial = at least two accepted descriptors in the case",
+        trusted=["equality of the 64-bit hashes is up to FNV collisions (the theorems are about the bytes fed to the hasher)",
+                 "strings are UTF-8 byte lists; utf8_noFF proved about Lean core's String.utf8EncodeChar"],
+    ),
     "C08": dict(
         module="Prom.Props.C08",
         areas=[dict(area="hist", quick=3000, thorough=150000)],
